@@ -218,6 +218,8 @@ def gen(tier, seed, prop):
             A, B, nearpar = make_pair(ka, kb, rng, prevB)
             prevB = B
             for lk in (("id", rng.choice(("scale", "rigid", "rigid1"))) if tier == "quick" else ("id", "scale", "rigid", "rigid1")):
+                if lk == "id" and max(A.size(), B.size()) > 100.0:
+                    lk = "scale"                    # the lattice scene itself is larger than the primitive domain allows
                 lift = prim_lift(rng, A, B, lk)
                 if nearpar and lk != "id":
                     # the smallest scale of the primitive domain P (features of 0.2): absolute thresholds vs small scenes
@@ -318,6 +320,51 @@ def gen(tier, seed, prop):
                     rid = f"p{n}"
                     recs.append(one(rid, fname, A, B, lift, prop))
                     meta[rid] = {"fn": fname, "A": A.describe(), "B": B.describe(), "lift": [lift[0], lift[1].tolist(), lift[2].tolist()], "family": "on-axis"}
+    # systematic family (independent of the seed): needle ellipsoids of aspect 100 .. 200 (radii 96 or 192 : 1..2, used at scales <= 0.5 / 0.26) with the
+    # query point a few units beside the thin side at any station along the long axis (seed C10-9: a stop test of the Newton
+    # iteration that scales with max(radii)^12)
+    nrng = random.Random(1618)
+    for rep in range(30):
+        rad = [nrng.randint(1, 2) for _ in range(3)]
+        ax = rep % 3
+        rad[ax] = 192 if rep % 2 else 96
+        B = PR.Prim("ellipsoid", c=[nrng.randint(-3, 3) for _ in range(3)], M=nrng.choice(S.CUBE)[0], radii=rad)
+        loc = np.array([nrng.choice((-1, 1)) * nrng.randint(2, 7) for _ in range(3)])
+        loc[ax] = nrng.randint(-90, 90) * (2 if rep % 2 else 1)
+        x = np.array(B.p["c"]) + np.array(B.p["M"]) @ loc
+        A = PR.Prim("point", x=[int(v) for v in x])
+        for lk in ("scale", "rigid"):
+            lift = prim_lift(nrng, A, B, lk)
+            n += 1
+            rid = f"p{n}"
+            recs.append(one(rid, "point_to_ellipsoid", A, B, lift, prop))
+            meta[rid] = {"fn": "point_to_ellipsoid", "A": A.describe(), "B": B.describe(), "lift": [lift[0], lift[1].tolist(), lift[2].tolist()], "family": "needle-ellipsoid"}
+    # systematic family (independent of the seed): two disks in perpendicular planes whose rims just touch - the rim of A reaches
+    # the plane of B in one point of B (interior, centre or rim), exactly or with a gap of 1e-9; under a rigid lift the distance
+    # of A's centre from the common line of the planes equals the radius only up to rounding (seed C10-10: sqrt of a negative
+    # radicand in the chord computation)
+    trng = random.Random(2718)
+    axes3 = np.eye(3, dtype=int)
+    for a1 in range(3):
+        for a2 in range(3):
+            if a1 == a2:
+                continue
+            a3 = 3 - a1 - a2                      # direction of the common line
+            for r1, r2, along in ((2, 3, 0), (1, 2, 1), (3, 3, 2), (2, 2, 2), (3, 1, 0)):
+                if along > r2:
+                    continue
+                cB = np.array([trng.randint(-2, 2) for _ in range(3)])
+                touch = cB + along * axes3[a3]                       # the touching point, a point of B on the common line
+                cA = touch + r1 * axes3[a2]                           # A lies in the plane normal to a1 and rises along a2 (the normal of B)
+                A = PR.Prim("disk", c=[int(x) for x in cA], r=r1, n=[int(x) for x in axes3[a1]])
+                B = PR.Prim("disk", c=[int(x) for x in cB], r=r2, n=[int(x) for x in axes3[a2]])
+                for lk in ("id", "rigid1", "rigid", "scale"):
+                    lift = prim_lift(trng, A, B, lk)
+                    for fname, X, Y in (("disk_to_disk", A, B), ("disk_to_disk", B, A)):
+                        n += 1
+                        rid = f"p{n}"
+                        recs.append(one(rid, fname, X, Y, lift, prop))
+                        meta[rid] = {"fn": fname, "A": X.describe(), "B": Y.describe(), "lift": [lift[0], lift[1].tolist(), lift[2].tolist()], "family": "touching-disks"}
     # pinned inputs of the known findings (deterministic, independent of the seed)
     import json, os
     pinned = [("disk_to_disk", PR.Prim("disk", c=[-5, -1, 0], r=3, n=[-1, 1, 1]), PR.Prim("disk", c=[-6, -1, 3], r=3, n=[1, -1, 0]), NW.IDENT)]
